@@ -165,6 +165,9 @@ CORPUS = [
     (B, "C20", "tools/_save.py", "    point_data = dict(point_data)\n", ""),
     (B, "C17,C16", "math/_spatial.py", "        if axis < 0:\n            axis += 3\n", ""),
     (B, "C08", "mesh/_dual.py", "        points_new = np.pad(points_new, ((0, npoints - len(points_new)), (0, 0)))", "        points_new = np.pad(points_new, ((npoints - len(points_new), 0), (0, 0)))"),
+    (B, "C12", "constitution/tensortrax/models/hyperelastic/_blatz_ko.py", "    return mu / 2 * (I2 / I3 + 2 * sqrt(I3) - 5)", "    return mu * (I2 / I3 + 2 * sqrt(I3) - 5)"),
+    (B, "C12", "constitution/tensortrax/models/hyperelastic/_yeoh.py", "C10 * (I1 - 3)", "C10 / 2 * (I1 - 3)"),
+    (K, "C12", "constitution/tensortrax/models/hyperelastic/_blatz_ko.py", "    return mu / 2 * (I2 / I3 + 2 * sqrt(I3) - 5)", "    return (I2 / I3 + 2 * sqrt(I3) - 5) * mu * 0.5"),
     (K, "C18", "mechanics/_free_vibration.py", "        dof0, self.dof1 = partition(x, self.boundaries)", "        self.dof0, self.dof1 = partition(x, self.boundaries)"),
     (K, "C11", "constitution/tensortrax/models/hyperelastic/microsphere/_framework_affine.py",
      "    λa = det(C) ** (1 / 6) * sqrt(einsum(\"ai,ij...,aj->a...\", r, inv(C), r))\n    ψa, statevars_new", "    λa = sqrt(det(C) ** (1 / 3) * einsum(\"ai,ij...,aj->a...\", r, inv(C), r))\n    ψa, statevars_new"),
